@@ -390,12 +390,11 @@ def _history(n: int, prof: int, pg: bool, a0: int, b1: int, codes, xs) -> bool:
             else:
                 op = al[_bpick(codes[k - 1], 0, len(al))]
             x = xs[k]
-            if op[0] >= 4:
-                # the dispatched value stays symbolic: >= 0 ordinary, < 0 makes every listener raise
-                if x < -1:
-                    x = -1
-                elif x > 0:
-                    x = 0
+            if op[0] == 4:
+                x = 0  # a raising listener in a plain dispatch is ordinary Python semantics: not explored
+            elif op[0] > 4:
+                # one decision on the symbolic dispatched value: >= 0 ordinary, < 0 makes every listener raise
+                x = -1 if x < 0 else 0
             if not _do(w, op, x, pg):
                 return False
             sh.apply(op)
@@ -433,7 +432,7 @@ META = {
     "bounds": {
         "quick": {"history": "<=2 operations over the full alphabet: listen(target in {Base, Sub, a Base instance, a Sub instance}, fn in 3 (canonical labelling), "
                              "insert?, once?; propagate per history), remove(target, fn), create Sub2(Sub), new instance of any existing class, dispatch / exec_once / "
-                             "exec_once_unless_exception on any instance with a symbolic value (x < 0: every listener raises); 3 operations in two profiles: "
+                             "exec_once_unless_exception on any instance (exec_once variants with a symbolic value, x < 0: every listener raises); 3 operations in two profiles: "
                              "(order+hierarchy) no once/exec_once, and (once/exec_once) no insert, targets {Sub, Sub instance}, two functions, no new classes/instances; "
                              "every run ends with a dispatch of both events on every instance and event.contains for every (target, fn)"},
         "thorough": {"history": "<=3 operations over the full alphabet; 4 operations without once/exec_once/insert, two listener functions, targets {Base, Sub, the Sub instance}, "
@@ -500,7 +499,7 @@ def _decode(args):
         else:
             op = al[_bpick(codes[k - 1], 0, len(al))]
         x = args.get("x%d" % k, 0)
-        out.append((op, max(-1, min(0, x))))
+        out.append((op, (-1 if x < 0 else 0) if op[0] > 4 else 0))
         sh.apply(op)
     return out
 
